@@ -782,7 +782,9 @@ constexpr std::size_t DNS_HEADER_SIZE = 12;
 constexpr std::size_t DNS_MAX_UDP_SIZE = 512;
 constexpr std::size_t DNS_MAX_TCP_SIZE = 65535;
 constexpr std::size_t DNS_MAX_LABEL_SIZE = 63;
-constexpr std::size_t DNS_MAX_NAME_SIZE = 253;
+// RFC 1035 2.3.4: a name is at most 255 octets ON THE WIRE, length octets and the root label included
+// (253 characters in presentation form).
+constexpr std::size_t DNS_MAX_NAME_SIZE = 255;
 constexpr std::uint8_t DNS_COMPRESSION_MASK = 0xC0;
 constexpr std::uint16_t DNS_COMPRESSION_POINTER_MASK = 0x3FFF;
 } // namespace constants
